@@ -177,3 +177,17 @@ Fixpoint agree_txs (e : env) (s : state) (l : list (tx * oracle * obs)) (i : nat
   end.
 
 Definition agree_case (c : case) : option nat := agree_txs (c_env c) (init_state c) (c_txs c) 0.
+
+(* multi-message counterpart of Model.must_run_ok, asserted only where it is clear-cut: unlimited block, the ante handler
+   admits the transaction, no message has a gas limit below its intrinsic gas or sends value to a blocked address ==> the
+   transaction must execute (code 0), whoever proposed the block *)
+Definition mmustrun_case (c : mcase) : option nat :=
+  let e := m_env c in
+  let msgs := map fst (m_msgs c) in
+  if (0 <=? e_blim e) || (match msgs with [] => true | _ => false end) || negb (forallb basic_valid msgs) then None
+  else match ante_multi e (minit c) msgs with
+       | inl _ => None
+       | inr _ =>
+           if existsb (fun t => (t_gas t <? t_intr t) || (t_blocked t && (0 <? t_value t))) msgs then None
+           else if m_code_ok c then None else Some 0%nat
+       end.
